@@ -113,8 +113,9 @@ impl WhereClauseBuilder {
             let ty = match ty {
                 Type::TraitObject(t) if (t.bounds.len() > 1 || t.bounds.trailing_punct()) => syn::parse_quote!((#ty)),
                 Type::ImplTrait(t) if (t.bounds.len() > 1 || t.bounds.trailing_punct()) => syn::parse_quote!((#ty)),
-                // `fn(T): Trait` is read as a function type with a misspelt return type.
-                Type::BareFn(t) if matches!(t.output, syn::ReturnType::Default) => syn::parse_quote!((#ty)),
+                // `fn(T): Trait` (also `&'a fn(T): Trait`, `fn() -> fn(T): Trait`) is read as a function type with a
+                // misspelt return type.
+                _ if ends_with_fn_without_return(ty) => syn::parse_quote!((#ty)),
                 // `where <T>::Assoc: Trait` is read as generic parameters on the where-clause, `(<T>::Assoc): Trait` is not.
                 Type::Path(p) if matches!(&p.qself, Some(q) if q.as_token.is_none()) => syn::parse_quote!((#ty)),
                 _ => ty.clone(),
@@ -131,5 +132,18 @@ impl WhereClauseBuilder {
         } else {
             quote!(where #(#ws,)*)
         }
+    }
+}
+
+/// Does the type end with a function pointer type that has no return type (`fn(T)`, `&'a fn(T)`, `fn() -> fn(T)`)?
+fn ends_with_fn_without_return(ty: &Type) -> bool {
+    match ty {
+        Type::BareFn(t) => match &t.output {
+            syn::ReturnType::Default => true,
+            syn::ReturnType::Type(_, ty) => ends_with_fn_without_return(ty),
+        },
+        Type::Reference(t) => ends_with_fn_without_return(&t.elem),
+        Type::Ptr(t) => ends_with_fn_without_return(&t.elem),
+        _ => false,
     }
 }
